@@ -72,7 +72,9 @@ class Surrogates(Cached):
             print("Generated an instance of the Surrogates class.")
 
         #  Set class variables
-        self.original_data = original_data
+        #  (own copy: normalize_original_data() works in place and is also
+        #  triggered by original_distribution() and the significance tests)
+        self.original_data = np.array(original_data, dtype=DFIELD)
         """The original time series for surrogate generation."""
         self.silence_level = silence_level
         """(string) - The inverse level of verbosity of the object."""
